@@ -25,7 +25,7 @@ STR_POOL = ["a", "b", "1", "2", "-3", "007", "True", "False", "nan", "NaN", "now
             "0.7", ".7", "1e5", "2020-01-01", "1_0", "+1", "a.b", "a-b", "None", "inf", "1.0", "0x10", "t", "T",
             "2020-01-01T00:00:00", "1 days", "A" * 30, "\U0001F600", "-", "null", "0", "1.5", "TRUE", "#", "a%20b"]
 ADVERSARIAL = STR_POOL + ["true", " 7 ", "7 ", "\t7", "1__0", "_1", "1_", "--1", "+-1", "1e", "e5", "1.", "-.5e-3",
-                          "Infinity", "-inf", "0b1", "１２", "12abc", "2020-13-01", "20200101_120000.000000",
+                          "Infinity", "-inf", "0b1", "12abc", "2020-13-01", "20200101_120000.000000",
                           "20200101_120000.5", "2020-01-01 01:02:03.5", "2020-01-01T01:02:03.000000005",
                           "1677-01-01", "3000-01-01", "1 day", "5min", "P1D", "9223372036854775808",
                           "-9223372036854775809", "18446744073709551615", "18446744073709551616", "255", "256", "-129",
@@ -91,7 +91,7 @@ def _impl_call(f, *a):
     except ValueError:
         return ["raises", "ValueError"]
     except Exception as e:      # noqa
-        return ["raises", type(e).__name__]
+        return ["raises", "Error"]
 
 
 def _run(ctx, pq):
@@ -133,8 +133,6 @@ def _run(ctx, pq):
             x = util.path_string(v)
         else:
             x = rng.choice(ADVERSARIAL)
-        if kind == [3] and False:
-            pass
         texts.append((kind, x))
     table = L.oracle_table([x for _, x in texts])
     for kind, x in texts:
@@ -145,8 +143,8 @@ def _run(ctx, pq):
     for (case, impl), mo in zip(meta, pq.batch(cmds)):
         ctx.case(case)
         ctx.count("B.kind", str(case["kind"]))
-        model = ["ok", L.from_model(mo[0])] if mo else ["raises"]
-        ok = ctx.correspondence("parse_with_meta ~ util.val_from_meta", case, model, impl[:1] + ([impl[1]] if impl[0] == "ok" else []))
+        model = L.res_of_model(mo, L.from_model)
+        ctx.correspondence("parse_with_meta ~ util.val_from_meta", case, model, impl)
         ctx.count("B.outcome", impl[0] if impl[0] == "raises" else impl[1][0])
 
     # ---------------------------------------------------------------- C: _val_to_num (guess)
@@ -208,16 +206,16 @@ def _run(ctx, pq):
         alltexts = [t for d in dirs for seg in d.split("/") for t in ([seg] + seg.split("="))]
         table = L.oracle_table(alltexts)
         for hive in (True, False):
-            parts = [d.split("/") for d in dirs]
+            parts = [d.split("/") for d in dirs if d]          # as api.paths_to_cats builds it
             try:
                 r = api._path_to_cats(dirs, parts, "hive" if hive else "drill", partition_meta=pm)
-                impl = [[k, sorted(json.dumps(L.canon(v)) for v in vs)] for k, vs in r.items()]
+                impl = ["ok", [[k, sorted(json.dumps(L.canon(v)) for v in vs)] for k, vs in r.items()]]
             except ValueError:
-                impl = None
+                impl = ["raises", "ValueError"]
             except Exception as e:      # noqa
-                impl = "raises " + type(e).__name__
-            mo = pq.call("path_to_cats", hive, pmx, [L.enc(d) for d in dirs], table)
-            model = [[bytes(k).decode(), sorted(json.dumps(L.from_model(v)) for v in vs)] for k, vs in mo[0]] if mo else None
+                impl = ["raises", "Error"]
+            mo = pq.call("path_to_cats", hive, pmx, [L.enc(d) for d in dirs], [[L.enc(x) for x in pp] for pp in parts], table)
+            model = L.res_of_model(mo, lambda c: [[bytes(k).decode(), sorted(json.dumps(L.from_model(v)) for v in vs)] for k, vs in c])
             case = {"corr": "path_to_cats", "hive": hive, "dirs": dirs, "pm": {k: v["numpy_type"] + "/" + v["pandas_type"] for k, v in pm.items()}}
             ctx.case(case)
             ctx.count("D.shape", shape)
@@ -230,19 +228,21 @@ def _run(ctx, pq):
         ctx.correspondence("strip_tail ~ api._strip_path_tail", {"paths": paths}, sorted(set(mdirs)), sorted(impl_dirs))
         try:
             sch, r = api.paths_to_cats(paths, pm)
-            impl = [sch, [[k, sorted(json.dumps(L.canon(v)) for v in vs)] for k, vs in r.items()]]
+            impl = ["ok", [sch, [[k, sorted(json.dumps(L.canon(v)) for v in vs)] for k, vs in r.items()]]]
+        except ValueError:
+            impl = ["raises", "ValueError"]
         except Exception as e:      # noqa
-            impl = "raises"
+            impl = ["raises", "Error"]
         mo = pq.call("paths_to_cats", pmx, [L.enc(p) for p in paths], [L.enc(d) for d in impl_dirs], table)
-        model = [bytes(mo[0][0]).decode(), [[bytes(k).decode(), sorted(json.dumps(L.from_model(v)) for v in vs)] for k, vs in mo[0][1]]] if mo else "raises"
+        model = L.res_of_model(mo, lambda r: [bytes(r[0]).decode(), [[bytes(k).decode(), sorted(json.dumps(L.from_model(v)) for v in vs)] for k, vs in r[1]]])
         case = {"corr": "paths_to_cats", "paths": paths, "dirs_order": impl_dirs, "pm": {k: v["numpy_type"] + "/" + v["pandas_type"] for k, v in pm.items()}}
         ctx.case(case)
         ctx.correspondence("paths_to_cats ~ api.paths_to_cats", case, model, impl)
 
     # ---------------------------------------------------------------- E: whole datasets
-    n_e = 70 if quick else 900
+    n_e = 160 if quick else 1500
     for i in range(n_e):
-        confirm = i < (6 if quick else 30)        # confirmation stream for the known findings
+        confirm = i < (8 if quick else 32)        # confirmation stream for the known findings
         case = gen_frame_case(rng, confirm, i)
         root = os.path.join(ctx.scratch, "e%d" % i)
         res = check_dataset(case, root, pq, ctx)
@@ -298,6 +298,8 @@ def gen_column(rng, kind, n, drill):
         used = rng.sample(cats, rng.choice([1, 2, len(cats)]))
         codes = [cats.index(rng.choice(used)) if not (nulls and rng.random() < 0.2) else -1 for _ in range(n)]
         return pd.Series(pd.Categorical.from_codes(codes, categories=cats))
+    if kind == "allnull":
+        return pd.Series(np.array([None if (r // 2) % 2 == 0 else "z" for r in range(n)], dtype=object))
     if kind == "catnum":
         cats = rng.sample([1, 2, 3, 10, -4], 3)
         codes = [rng.randrange(2) for _ in range(n)]
@@ -312,14 +314,22 @@ def gen_frame_case(rng, confirm, i):
     n = rng.choice([0, 1, 2, 3, 5, 8, 13, 21, 34]) if i % 9 else rng.choice([0, 1])
     n_on = rng.choice([1, 1, 2, 2, 3])
     kinds = [rng.choice(["int", "int", "bool", "float", "time", "str", "strnum" if scheme == "hive" else "str", "cat"]) for _ in range(n_on)]
+    which = i % 4 if confirm else -1
     if confirm:
-        which = i % 3
         if which == 0:
             scheme, kinds[0] = "hive", "catnum"
         elif which == 1:
             scheme, kinds = "drill", ["strnum"] + kinds[1:]
+        elif which == 2:
+            scheme, n_on, kinds = "drill", 2, [rng.choice(["str", "int"]), rng.choice(["bool", "time", "int"])]
+        else:       # regression stream of fix d63c479: categorical key next to a key column that is all NULL in a chunk
+            n_on, kinds = 2, ["cat", "allnull"]
         n = max(n, 6)
-    names = rng.sample(["k", "part", "A_b", "dir0", "year", "x1"], n_on)
+    # a partition column that is itself called dirN collides, in the drill layout, with the positional
+    # name of another level (finding C08-drill-dirN-name-collision): confirmation stream only
+    names = rng.sample(["k", "part", "A_b", "dir0", "year", "x1"] if scheme == "hive" else ["k", "part", "A_b", "year", "x1"], n_on)
+    if which == 2:
+        names = [rng.choice(["k", "year"]), "dir0"]
     cols = {}
     for nm, kd in zip(names, kinds):
         cols[nm] = gen_column(rng, kd, n, scheme == "drill")
@@ -330,10 +340,12 @@ def gen_frame_case(rng, confirm, i):
     rng.shuffle(order)
     df = pd.DataFrame({c: cols[c] for c in order})
     rk = rng.choice(["none", "int", "int", "list"])
+    if which == 3:
+        rk = "int"
     if rk == "none" or n == 0:
         rgo, rk = None, "none"
     elif rk == "int":
-        rgo = rng.choice([1, 2, 3, 5, n, n + 1, max(1, n // 2)])
+        rgo = 2 if which == 3 else rng.choice([1, 2, 3, 5, n, n + 1, max(1, n // 2)])
     else:
         cuts = sorted(set(rng.sample(range(1, n), min(n - 1, rng.choice([1, 2, 3]))))) if n > 1 else []
         rgo = [0] + cuts
@@ -372,7 +384,7 @@ def check_dataset(case, root, pq, ctx=None, verbose=False):
     cls = {"scheme": scheme, "partition_kinds": sorted({("cat:" + label_kind[c]) if is_cat[c] else kinds[c][1] for c in on})}
     texts = {}
     for r in alive:
-        texts[r] = [("%s" % v) if not hive else (v.isoformat() if isinstance(v, pd.Timestamp) else str(v)) for v in keyvals[r]]
+        texts[r] = [L.key_text(v, hive) for v in keyvals[r]]
     if scheme == "drill":
         guess_kinds = set()
         for j, c in enumerate(on):
@@ -380,6 +392,7 @@ def check_dataset(case, root, pq, ctx=None, verbose=False):
             if "s" in ks and len(ks) > 1:
                 guess_kinds.add("mixed-text-and-guessable")
         cls["drill_levels"] = sorted(guess_kinds)
+        cls["dirN_name_collision"] = any(c == "dir%d" % i2 for j, c in enumerate(on) for i2 in range(len(on)) if i2 != j)
 
     try:
         write(root, df, file_scheme=scheme, partition_on=on, row_group_offsets=rgo)
@@ -467,7 +480,8 @@ def check_dataset(case, root, pq, ctx=None, verbose=False):
                     if g != want:
                         k = "cat-label-kind" if is_cat[c] and g[0] == "s" and want[0] != "s" else "value"
                         problems.append("row %d column %s: read %r, written %r" % (rid, c, g, want))
-                        cls_extra["mismatch"] = k
+                        if cls_extra.get("mismatch") != "value":
+                            cls_extra["mismatch"] = k
                 else:
                     gm = L.from_model(pq.call("val_to_num", L.enc(texts[rid][j]), [L.oracle_entry(texts[rid][j])]))
                     ok = g == want or g == ["s", texts[rid][j]] or g == gm or \
